@@ -1,14 +1,19 @@
 // C37 — error positions point at the right lines and columns.
 //
 // M: MCDiagPos: the code-shaped Impl (getContextDetails) equals the declarative Ref outside the
-//    Unspecified case, and Ref is self-consistent ((sl,sc) is the offset `from`, (el,ec) the last
-//    byte of the body, head/body/tail are whole lines), for all sources <= N tokens x all byte ranges.
+//
+//	Unspecified case, and Ref is self-consistent ((sl,sc) is the offset `from`, (el,ec) the last
+//	byte of the body, head/body/tail are whole lines), for all sources <= N tokens x all byte ranges.
+//
 // G: every enumerated case with Ref's prescribed outcome is replayed through diag.NewContext and
-//    through (*diag.Error[T]).Error() / Context.Show (range description).
+//
+//	through (*diag.Error[T]).Error() / Context.Show (range description).
+//
 // V: (a) random multi-line sources x random byte ranges through diag.NewContext;
-//    (b) the diag.Context values inside REAL parse errors, compilation errors and exception stack
-//    traces of generated programs (Evaler.Eval / Evaler.Check), projected and judged by the TLC
-//    case walker JudgeDiagPos.
+//
+//	(b) the diag.Context values inside REAL parse errors, compilation errors and exception stack
+//	traces of generated programs (Evaler.Eval / Evaler.Check), projected and judged by the TLC
+//	case walker JudgeDiagPos.
 package main
 
 import (
